@@ -12,6 +12,7 @@ from ..oracle import (ACCEPT, REJECT, EITHER, slack3, slack_tripped_int, and3,
                       verdict3, validsig, sha256, shake256, pubkey_of_seed,
                       bool_of, base_mult, point_add, as_key_arg, PREFIXES, DECORATIONS, SUFFIXES,
                       LOCK_FORMS, LIMITS, in_form, code_of, WRAPS, wrap_lock, malleate, pick_bit,
+                      gen_tx_change, change_tx,
                       ARG_STYLES, styled_flags, styled_sigfields, maybe_twice)
 
 PID = 'C15'
@@ -43,7 +44,8 @@ REQUIRED_PROBES = ['refund_at_deadline', 'refund_deadline_minus_1', 'claim_after
                    'corrupt_preimage', 'corrupt_pubkey', 'corrupt_selector', 'threshold_per_call',
                    'default_timestamp', 'crafted_witness', 'witness_with_code', 'witness_ending_in_return',
                    'lock_form_bytes', 'lock_form_resrc', 'lock_form_redec', 'explicit_limits',
-                   'clock_read_failed', 'malleated_signature'] + \
+                   'clock_read_failed', 'malleated_signature',
+                   'transaction_changed_after_signing'] + \
     ['lock_wrapped_' + x for x in sorted(set(WRAPS) - {'none'})]
 
 LKINDS = ['htlc_sha', 'htlc_shake', 'htlc2_sha', 'htlc2_shake', 'ptlc', 'ptlc_tweak']
@@ -138,6 +140,7 @@ def gen_step(rng, cell, oid, out, clocks, vname, thr, fault_free):
             'decor': rng.choice(DECORATIONS), 'suffix': rng.choice(SUFFIXES),
             'form': rng.choice(LOCK_FORMS), 'limits': rng.below(len(LIMITS)),
             'wrap': rng.choice(WRAPS), 'style': rng.choice(ARG_STYLES),
+            'tx_change': gen_tx_change(rng) if rng.chance(1, 10) else None,
             'twice': rng.choice(['', '', '', 'build', 'validate', 'build+validate'])}
     if not fault_free:
         r = rng.below(10)
@@ -300,10 +303,12 @@ def push_script(items):
     return T.Script.from_src('\n'.join(src))
 
 
-def model(out, created, keys, items, t, reads, thr):
-    """item-level reference model, written from the property statement"""
+def model(out, created, keys, items, t, reads, thr, sf=None):
+    """item-level reference model, written from the property statement (sf: the
+    validator's sigfields where they differ from the output's)"""
     k = out['kind']
-    sf = {x: bytes.fromhex(v) for x, v in out['sigfields'].items()}
+    if sf is None:
+        sf = {x: bytes.fromhex(v) for x, v in out['sigfields'].items()}
     allowed = int(out['allowed'], 16)
     deadline = created + out['timeout']
     recv, refund = keys['R'][1], keys['S'][1]
@@ -468,6 +473,10 @@ def execute(plan, run):
             extra = [b'\xff'] if step['suffix'].startswith('true') else \
                 [b'\x00'] if step['suffix'].startswith('false') else []
             items = items + extra
+        if step.get('tx_change'):
+            # the validator's transaction differs from the one that was signed
+            run.probe('transaction_changed_after_signing')
+            sf = change_tx(sf, step['tx_change'])
         cache_in = dict(sf) if step.get('default_t') else {**sf, 'timestamp': step['t']}
         lockf = real('lock in form ' + step.get('form', 'object'), in_form, lock,
                      step.get('form', 'object'))
@@ -527,7 +536,7 @@ def execute(plan, run):
         if step.get('default_t'):
             run.probe('default_timestamp')
             step = dict(step, t=int(reads[0]) if reads else 0)
-        mdl = model(out, created, keys, items, step['t'], reads, step['thr'])
+        mdl = model(out, created, keys, items, step['t'], reads, step['thr'], sf=sf)
         if (step.get('suffix') or clock_failed) and mdl == ACCEPT:
             mdl = EITHER        # soundness only (see oracle.SUFFIXES)
         t = step['t']
@@ -554,7 +563,8 @@ def execute(plan, run):
         native = step['wkind'] == NATIVE[lk] or (
             lk.startswith('ptlc') and step['wkind'] == 'ptlc_refund')
         tiny = lk.endswith('shake') and out['hash_size'] < 16
-        if native and not cor and not tiny and not step.get('suffix') and not clock_failed:
+        if native and not cor and not tiny and not step.get('suffix') and not clock_failed and \
+                not step.get('tx_change'):
             who = step['actor']
             flag_ok = (int(step['flag'], 16) & ~int(out['allowed'], 16) & 0xff) == 0
             if lk.startswith('htlc'):
